@@ -12,7 +12,8 @@
                                        created helper entries that still support a desired entry"
         KeptInPlace                   "keeping in place every unchanged entry that is not beneath a changed one"
         UnmountOrder / UnmountOrderTrue "never unmount an entry before the entries mounted beneath it after it"
-                                       (w.r.t. the order of the profile / the true order of mounting)
+        / UnmountStrandsNothing        (w.r.t. the order of the profile / the true order of mounting; and not
+                                       at all while such an entry is kept)
         MountOrder                    "among entries of the same origin never mount an entry before the
                                        entries whose directories contain it"
         PlanCoversCurrent, ApplyMatches   (the plan is a plan for `cur`, and `res` is what executing it records)
@@ -109,6 +110,16 @@ UnmountOrderBad(u, log) ==
                                        /\ pi < pj}
 UnmountOrder(u)          == UnmountOrderBad(u, u.cur) = {}
 UnmountOrderTrue(u, log) == UnmountOrderBad(u, log) = {}
+
+(* ... and an entry is not unmounted at all while an entry that was mounted beneath it after it stays (kept):
+   the kept entry would be unmounted "after" it, i.e. never.                                                *)
+UnmountStrandsBad(u, log) ==
+    {<<i, j>> \in (DOMAIN log) \X (DOMAIN log) :
+        /\ i < j /\ Beneath(log[j], log[i]) /\ IsMountLike(log[i]) /\ IsMountLike(log[j])
+        /\ \E pi \in Unmounts(u) : Core(u.plan[pi].e) = Core(log[i])
+        /\ \E pj \in Keeps(u) : Core(u.plan[pj].e) = Core(log[j])
+        /\ ~\E pj \in Unmounts(u) : Core(u.plan[pj].e) = Core(log[j])}
+UnmountStrandsNothing(u, log) == UnmountStrandsBad(u, log) = {}
 
 \* among entries of the same origin a directory is mounted before what it contains
 MountOrderBad(u) == {<<i, j>> \in Mounts(u) \X Mounts(u) :
